@@ -63,8 +63,52 @@ pub struct Reporter {
     max_new: usize,
 }
 
+/// Which statements an oracle of the broker reference model speaks for. The model runs all
+/// of its oracles in every E1 check (it has to follow the whole history to stay in step with
+/// the router), but a check answers for its own statement only: an oracle that belongs to
+/// other statements ends the branch (the model may be out of step from there on) and is
+/// listed as a NOTE, not as a verdict. Codes that are not listed belong to every check
+/// (crashes, hangs, the machinery's own consistency checks).
+pub fn owners(code: &str) -> Option<&'static [&'static str]> {
+    Some(match code {
+        // delivery: who gets which message, how often, in which order
+        "unexpected_forward" | "spurious_forward" => &["C01", "C06", "C08", "C12", "C14", "C16", "C17", "C20"],
+        // (shared groups have their own completeness oracle)
+        "undelivered" => &["C01", "C06", "C08", "C09", "C12", "C14", "C16", "C20"],
+        "resubscribe_qos_not_applied" | "forward_qos" => &["C01"],
+        // the topic a subscriber ends up with (aliases it cannot resolve lose the topic)
+        "bad_topic_alias" => &["C01", "C20"],
+        // replies to requests
+        "unexpected_reply" | "missing_reply" => &["C06", "C14"],
+        // the release that completes a QoS 2 delivery to a subscriber
+        "release_missing" | "unexpected_release" => &["C01", "C08", "C09"],
+        // persistent sessions (a subscription in force keeps its identifier)
+        "session_present" => &["C08"],
+        "subscription_id_missing" | "subscription_id_wrong" => &["C08", "C20"],
+        // outbound window
+        "forward_pkid_zero" | "forward_pkid_reused" | "window_exceeded" => &["C09"],
+        // layout of the router's tables as the snapshot hook shows it: no statement speaks
+        // of it, it is only ever a note
+        "slab_misaligned" | "connection_map_not_bijective" | "inflight_over_100" => &[],
+        // who is connected
+        "unexpected_close" => &["C03", "C09", "C14"],
+        "connection_set" => &["C03", "C09", "C14", "C19"],
+        "max_connections_exceeded" | "connect_refused" | "connack_not_success" => &["C19", "C14", "C03"],
+        "late_event_hit_live_connection" => &["C14"],
+        // retained messages
+        "retained_flag_unexpected" | "retained_replay" => &["C15"],
+        // shared subscriptions
+        "shared_spurious" | "shared_duplicate" | "shared_order" | "shared_undelivered" | "shared_group_after_persistent_member_left" => &["C17"],
+        // protocol versions
+        "props_not_preserved" | "props_towards_v4" | "encode_error" | "encode_panic" | "client_cannot_decode" | "connack_not_encodable" => &["C20"],
+        _ => return None,
+    })
+}
+
 #[derive(Default)]
 struct Inner {
+    /// oracle code -> (executions, first detail) for oracles of other statements
+    notes: BTreeMap<String, (u64, String)>,
     known_hits: BTreeMap<String, (u64, String)>,
     /// (violation, replay json) — first few distinct (code) kept
     new: Vec<(Violation, Value)>,
@@ -95,6 +139,21 @@ impl Reporter {
     /// Record a violation together with the replay that reproduces it.
     /// Returns true when it is a known finding.
     pub fn report(&self, v: &Violation, replay: impl FnOnce() -> Value) -> bool {
+        if owners(&v.code).is_some_and(|o| !o.contains(&v.property)) {
+            let mut g = self.inner.lock().unwrap();
+            let first = !g.notes.contains_key(&v.code);
+            g.notes.entry(v.code.clone()).or_insert((0, v.detail.clone())).0 += 1;
+            if first && std::env::var("VERIF_DUMP_NOTES").is_ok() {
+                let dir = verif_root().join("replays").join("notes");
+                let _ = std::fs::create_dir_all(&dir);
+                let doc = json!({"property": v.property, "code": v.code, "detail": v.detail, "replay": replay()});
+                let _ = std::fs::write(
+                    dir.join(format!("{}-{}.json", v.property, v.code)),
+                    serde_json::to_string_pretty(&doc).unwrap(),
+                );
+            }
+            return true;
+        }
         if let Some(f) = self.known_id(v) {
             let mut g = self.inner.lock().unwrap();
             let first = !g.known_hits.contains_key(&f.id);
@@ -131,6 +190,10 @@ impl Reporter {
         self.inner.lock().unwrap().new_count
     }
 
+    pub fn notes(&self) -> Vec<(String, u64)> {
+        self.inner.lock().unwrap().notes.iter().map(|(k, v)| (k.clone(), v.0)).collect()
+    }
+
     pub fn known_hits(&self) -> Vec<(String, u64)> {
         self.inner
             .lock()
@@ -144,6 +207,17 @@ impl Reporter {
     /// Print KNOWN-FINDING / VIOLATION lines, write replay files; returns the exit code.
     pub fn finish(&self) -> i32 {
         let g = self.inner.lock().unwrap();
+        for (code, (n, detail)) in g.notes.iter() {
+            let short: String = detail.chars().take(160).collect();
+            println!(
+                "NOTE: property={} oracle {} (speaks for {:?}, not for this statement) fired in {} executions, branches ended there; first: {}",
+                self.property,
+                code,
+                owners(code).unwrap_or(&[]),
+                n,
+                short
+            );
+        }
         for (id, (n, summary)) in g.known_hits.iter() {
             println!(
                 "KNOWN-FINDING: property={} {} [{}; {} executions hit it]",
